@@ -1086,8 +1086,9 @@ func (c *aspcontext) RequiredGas(input []byte) uint64 {
 }
 
 func (c *aspcontext) Run(ctx context.Context, input []byte) ([]byte, error) {
-	if input == nil || len(input) < 20 {
-		return nil, nil
+	if len(input) < 20 {
+		// too short to hold the address: reject instead of succeeding with no data
+		return nil, errors.New("invalid input data length")
 	}
 	address := common.BytesToAddress(input[:20])
 	key := string(input[20:])
@@ -1109,7 +1110,7 @@ func (u *userOpSender) RequiredGas(input []byte) uint64 {
 
 func (u *userOpSender) Run(ctx context.Context, input []byte) ([]byte, error) {
 	if len(input) == 0 {
-		return nil, nil
+		return nil, errors.New("invalid input data length")
 	}
 
 	var userOpHash common.Hash
@@ -1137,8 +1138,10 @@ func (c *contextWriter) RequiredGas(input []byte) uint64 {
 }
 
 func (c *contextWriter) Run(ctx context.Context, input []byte) ([]byte, error) {
-	if input == nil || len(input) < 128 {
-		return nil, nil
+	if len(input) < 128 {
+		// two offsets and two length words are the minimum for abi.encode(bytes, bytes):
+		// a shorter payload is truncated and must not look like a successful write
+		return nil, errors.New("invalid input data length")
 	}
 
 	key, err := loadParamBytes(input, 0)
